@@ -25,6 +25,7 @@ func init() {
 type writeBudget struct {
 	mu     sync.Mutex
 	left   int // writes that still succeed; <0 = unlimited
+	once   bool // only the first refused write fails (a single injected write error); later writes succeed
 	writes int
 	trace  []string
 }
@@ -33,6 +34,9 @@ func (b *writeBudget) allow(what string) error {
 	b.mu.Lock()
 	defer b.mu.Unlock()
 	if b.left == 0 {
+		if b.once {
+			b.left = -1
+		}
 		return fmt.Errorf("injected fault before %s", what)
 	}
 	if b.left > 0 {
@@ -111,6 +115,7 @@ func (s *faultRefStore) DeleteTransaction(id uuid.UUID) error {
 type c14Op struct {
 	Kind   string `json:"kind"` // commit | discard
 	FailAt int    `json:"failAt"` // -1 = no fault; k = the (k+1)-th write fails
+	Once   bool   `json:"once"`   // only that one write fails (an injected error); otherwise every later write fails too (a crash)
 }
 
 type c14Input struct {
@@ -227,7 +232,7 @@ func c14Run(in *c14Input) Res {
 		}
 		states := []c14State{dump("init")}
 		for _, op := range in.Ops {
-			b := &writeBudget{left: op.FailAt}
+			b := &writeBudget{left: op.FailAt, once: op.Once}
 			fdb := &faultObjStore{Store: db, b: b}
 			frs := &faultRefStore{Store: rs, b: b}
 			var err error
@@ -239,7 +244,7 @@ func c14Run(in *c14Input) Res {
 			}
 			outcome := "ok"
 			if err != nil {
-				if b.left == 0 && op.FailAt >= 0 && strings.Contains(err.Error(), "injected fault") {
+				if op.FailAt >= 0 && strings.Contains(err.Error(), "injected fault") {
 					outcome = "failed"
 				} else {
 					outcome = "refused"
@@ -270,19 +275,26 @@ func genC14(r *rand.Rand) *c14Input {
 	maxWrites := 2*nb + 1
 	switch r.Intn(7) {
 	case 0:
-		in.Ops = []c14Op{{"commit", -1}, {"commit", -1}}
+		in.Ops = []c14Op{{"commit", -1, false}, {"commit", -1, false}}
 	case 1:
-		in.Ops = []c14Op{{"commit", -1}, {"discard", -1}}
+		in.Ops = []c14Op{{"commit", -1, false}, {"discard", -1, false}}
 	case 2:
-		in.Ops = []c14Op{{"discard", -1}, {"commit", -1}}
+		in.Ops = []c14Op{{"discard", -1, false}, {"commit", -1, false}}
 	case 3:
-		in.Ops = []c14Op{{"commit", r.Intn(maxWrites)}, {"discard", -1}}
+		in.Ops = []c14Op{{"commit", r.Intn(maxWrites), r.Intn(2) == 0}, {"discard", -1, false}}
 	default:
 		f := r.Intn(maxWrites)
-		in.Ops = []c14Op{{"commit", f}, {"commit", -1}}
+		in.Ops = []c14Op{{"commit", f, r.Intn(2) == 0}, {"commit", -1, false}}
 		if r.Intn(3) == 0 {
 			// fail twice before completing
-			in.Ops = []c14Op{{"commit", f}, {"commit", r.Intn(maxWrites)}, {"commit", -1}, {"commit", -1}}
+			in.Ops = []c14Op{{"commit", f, r.Intn(2) == 0}, {"commit", r.Intn(maxWrites), r.Intn(2) == 0}, {"commit", -1, false}, {"commit", -1, false}}
+		}
+	}
+	if r.Intn(5) == 0 {
+		// a fault inside discard (one store operation per staged ref, then the transaction row), then discard again
+		in.Ops = []c14Op{{"discard", r.Intn(nb + 2), r.Intn(2) == 0}, {"discard", -1, false}}
+		if r.Intn(3) == 0 {
+			in.Ops = append([]c14Op{{"commit", r.Intn(maxWrites), r.Intn(2) == 0}}, in.Ops...)
 		}
 	}
 	return in
